@@ -66,5 +66,33 @@ func init() {
 		{Module: "Leecher", Name: "unregisterHitsSession", File: gBaseL, Func: "BaseLeecher.UnregisterPeer", Sel: "if:0", Mode: "nat",
 			Vars: map[string]string{"d.callback.OngoingSessionPeer()": "sessionPeer", "peer": "peer"}, Params: []string{"sessionPeer", "peer"}, Result: "Bool",
 			Doc: "peers are numbered; 0 = the empty string (no session)"},
+		// ---- itemsfetcher (C16) ---------------------------------------------------------------
+		{Module: "Fetcher", Name: "isFirst", File: gFetcher, Func: "Fetcher.processNotification", Sel: "assign:first", Mode: "nat",
+			Vars: map[string]string{"len(f.fetching)": "nFetching"}, Params: []string{"nFetching"}, Result: "Bool"},
+		{Module: "Fetcher", Name: "noAnnounces", File: gFetcher, Func: "Fetcher.processNotification", Sel: "assign:noAnnounces", Mode: "nat",
+			Vars: map[string]string{"f.announces.Len()": "nAnnounces"}, Params: []string{"nAnnounces"}, Result: "Bool"},
+		{Module: "Fetcher", Name: "nothingInteresting", File: gFetcher, Func: "Fetcher.processNotification", Sel: "if:0", Mode: "nat",
+			Vars: map[string]string{"len(notification.ids)": "nIds"}, Params: []string{"nIds"}, Result: "Bool"},
+		{Module: "Fetcher", Name: "fetchNow", File: gFetcher, Func: "Fetcher.processNotification", Sel: "if:1", Mode: "nat",
+			Vars: map[string]string{"noFetching": "suspended"}, BParams: []string{"suspended"}, Result: "Bool"},
+		{Module: "Fetcher", Name: "notYetFetching", File: gFetcher, Func: "Fetcher.processNotification", Sel: "if:2", Mode: "nat",
+			Vars: map[string]string{"ok": "isFetching"}, BParams: []string{"isFetching"}, Result: "Bool"},
+		{Module: "Fetcher", Name: "sendRequest", File: gFetcher, Func: "Fetcher.processNotification", Sel: "if:3", Mode: "nat",
+			Vars: map[string]string{"len(toFetch)": "nToFetch"}, Params: []string{"nToFetch"}, Result: "Bool"},
+		{Module: "Fetcher", Name: "armTimer", File: gFetcher, Func: "Fetcher.processNotification", Sel: "if:4", Mode: "nat",
+			Vars:   map[string]string{"first": "first", "noAnnounces": "noAnnounces", "len(f.fetching)": "nFetching", "f.announces.Len()": "nAnnounces"},
+			Params: []string{"nFetching", "nAnnounces"}, BParams: []string{"first", "noAnnounces"}, Result: "Bool",
+			Doc: "the timer is (re)armed after a notification when this holds (repaired rule, DESIGN 7-D3)"},
+		{Module: "Fetcher", Name: "tooOld", File: gFetcher, Func: "Fetcher.loop", Sel: "if:1", Mode: "nat",
+			Vars: map[string]string{"time.Since(oldest.time)": "age", "f.cfg.ForgetTimeout": "forget"}, Params: []string{"age", "forget"}, Result: "Bool"},
+		{Module: "Fetcher", Name: "refetch", File: gFetcher, Func: "Fetcher.loop", Sel: "if:2", Mode: "nat",
+			Vars:   map[string]string{"time.Since(f.fetching[id].fetchingTime)": "since", "f.cfg.ArriveTimeout": "arrive", "f.cfg.GatherSlack": "gather"},
+			Params: []string{"since", "arrive", "gather"}, Result: "Bool", Doc: "durations as naturals; GatherSlack <= ArriveTimeout assumed (truncated subtraction)"},
+		{Module: "Fetcher", Name: "nothingAnnounced", File: gFetcher, Func: "Fetcher.rescheduleFetch", Sel: "if:0", Mode: "nat",
+			Vars: map[string]string{"f.announces.Len()": "nAnnounces"}, Params: []string{"nAnnounces"}, Result: "Bool"},
+		{Module: "Fetcher", Name: "maxChecks", File: gFetcher, Func: "Fetcher.rescheduleFetch", Sel: "assign:maxChecks", Mode: "nat",
+			Vars: map[string]string{"f.cfg.HashLimit": "hashLimit"}, Params: []string{"hashLimit"}, Result: "Nat"},
+		{Module: "Fetcher", Name: "maxDurationFirst", File: gFetcher, Func: "maxDuration", Sel: "if:0", Mode: "nat",
+			Vars: map[string]string{"a": "a", "b": "b"}, Params: []string{"a", "b"}, Result: "Bool"},
 	}...)
 }
